@@ -97,6 +97,12 @@ func (m *MMap) Size() (int64, error) {
 	return m.virtualSize, nil
 }
 
+func (m *MMap) Truncate(size int64) error {
+	// 仅调整逻辑大小, 文件物理大小在关闭时统一调整
+	m.virtualSize = size
+	return nil
+}
+
 func (m *MMap) ResetFileSize() error {
 	if err := m.file.Truncate(m.virtualSize); err != nil {
 		return err
